@@ -61,6 +61,30 @@ def corrupt(v):
     return None
 
 
+def variants(v):
+    """several single-place corruptions of one field value: a sequence is changed at its first, middle and last element,
+    a record in each of its (first six) fields"""
+    out = []
+    if isinstance(v, list) and v:
+        for i in sorted({0, len(v) // 2, len(v) - 1}):
+            c = corrupt(v[i])
+            if c is not None:
+                out.append(v[:i] + [c] + v[i + 1:])
+        out.append(v[:-1])
+    elif isinstance(v, dict):
+        for k in sorted(v)[:6]:
+            c = corrupt(v[k])
+            if c is not None:
+                d = dict(v)
+                d[k] = c
+                out.append(d)
+    else:
+        c = corrupt(v)
+        if c is not None:
+            out.append(c)
+    return out
+
+
 def stages():
     seen, out = set(), []
     for prop in sorted(checks.CHECKS):
@@ -243,16 +267,15 @@ def main():
                         for fld in sorted(cases[ci][ei]):
                             if fld in SKIP_FIELDS:
                                 continue
-                            c = OVERRIDE.get((st.family, ev, fld), corrupt(cases[ci][ei][fld]))
-                            if c is None:
-                                continue
-                            k += 1
-                            meta[BASE_T + k] = (ev, fld)
-                            for j, e in enumerate(cases[ci]):
-                                d = copy.deepcopy(e); d["t"] = BASE_T + k
-                                if j == ei:
-                                    d[fld] = c
-                                out.append(d)
+                            ov = OVERRIDE.get((st.family, ev, fld))
+                            for c in ([ov] if ov is not None else variants(cases[ci][ei][fld])):
+                                k += 1
+                                meta[BASE_T + k] = (ev, fld)
+                                for j, e in enumerate(cases[ci]):
+                                    d = copy.deepcopy(e); d["t"] = BASE_T + k
+                                    if j == ei:
+                                        d[fld] = c
+                                    out.append(d)
                 cpath = base + ".corrupted.ndjson"
                 with open(cpath, "w") as f:
                     for d in out:
